@@ -21,6 +21,7 @@ modifier bits / key fields / `unicode` calls, what each arm assigns, writes or r
 import VaxisModel.Model.KeyBody
 import VaxisModel.Lemmas.KeyBodyPin
 import VaxisModel.Lemmas.GoInterp
+import VaxisModel.Lemmas.KeyBodyEvalString
 
 namespace VaxisModel.Props.C09Body
 open VaxisModel.Model.GoBody VaxisModel.Model.GoInterp VaxisModel.Model.Key VaxisModel.Model.KeyBody
@@ -68,5 +69,14 @@ theorem matches_body_eq_model (u : Uni) (k : Key) (key : Int) (m : Nat) :
   all_goals (first | rfl | grind)
 
 example : matchesGen VaxisModel.Props.C09Body.exUni { keycode := 97, mods := 5 } 97 5 = some true := by decide +kernel
+
+/-- **string_body_eq_model.** Running the body of `Key.String` as extracted from key.go on this run
+    (the six modifier prefixes, the switch on the key code, the loop over `keyNames`) gives, for every
+    `unicode` oracle and key event, exactly the hand-written `Model.Key.keyString`. -/
+theorem string_body_eq_model (u : Uni) (k : Key) : keyStringGen u k = some (keyString u k) :=
+  VaxisModel.Lemmas.KeyBodyEval.string_body_eq u k
+
+example : keyStringGen VaxisModel.Props.C09Body.exUni { keycode := 97, mods := 5 } = some [67, 116, 114, 108, 43, 83, 104, 105, 102, 116, 43, 97] := by
+  rw [string_body_eq_model]; decide +kernel
 
 end VaxisModel.Props.C09Body
